@@ -211,9 +211,9 @@ def denoise_world(report, log, cset, num_cores, restore_behaviour='ok'):
 
 
 def run_denoise_session(workdir, argv, script, report, cset=None, num_cores=4, no_denoise=False,
-                        restore_behaviour='ok'):
+                        restore_behaviour='ok', log=None):
     """one in-process session; returns (SessionResult, event list)"""
-    log = EventLog()
+    log = log or EventLog()
 
     def logged_script(rec):
         out = script(rec)        # may raise: then no process exists
@@ -235,12 +235,12 @@ def run_denoise_session(workdir, argv, script, report, cset=None, num_cores=4, n
 
 # ------------------------------------------------------ parallel scheduler
 def run_parallel_session(workdir, argv, script, report, cpu_count=8, cset=None, num_cores=4, no_denoise=False,
-                         wait=8.0):
+                         wait=8.0, log=None):
     """like `run_denoise_session`, for the parallel scheduler (`cpu_count` > 1 and runs that are
     not exclusive).  The scripted world stays in place until every `BenchmarkThread` has ended:
     after an interrupt the worker threads of the pinned tree keep starting processes, and they
     must never reach a real `Popen` / `sudo`.  Returns (SessionResult, events, threads_left)."""
-    log = EventLog()
+    log = log or EventLog()
 
     def logged_script(rec):
         out = script(rec)
@@ -292,3 +292,115 @@ def run_parallel_session(workdir, argv, script, report, cpu_count=8, cset=None, 
         res.stdout, res.stderr = out.getvalue(), err.getvalue()
         res.starts, res.kills = layer.starts, layer.kills
     return res, list(log.events), left
+
+
+# ------------------------------------------- sessions in a forked child (signals that may kill)
+SIG_ADAPTER = '''import builtins
+
+from rebench.interop.rebench_log_adapter import RebenchLogAdapter
+
+
+class SigAdapter(RebenchLogAdapter):
+    """tells the harness when ReBench is between two benchmark processes"""
+
+    def __init__(self, include_faulty, executor):
+        RebenchLogAdapter.__init__(self, include_faulty, executor)
+        builtins.rb_verif_point('before-start')
+
+    def parse_data(self, data, run_id, invocation):
+        builtins.rb_verif_point('after-end')
+        return RebenchLogAdapter.parse_data(self, data, run_id, invocation)
+'''
+
+
+class _StreamLog(EventLog):
+    """event log that also streams every event to a pipe: it survives the death of the process"""
+    fd = None
+
+    def add(self, *ev):
+        EventLog.add(self, *ev)
+        try:
+            os.write(self.fd, (json.dumps(list(ev), default=str) + '\\n').encode())
+        except OSError:
+            pass
+
+
+def run_forked_session(workdir, argv, script, report, sig_at=None, sig=None, cpu_count=1, num_cores=4,
+                       cset=None, timeout=30.0):
+    """One scripted session in a forked child process whose signal dispositions are those of a fresh
+    ReBench process.  At the `sig_at`-th point between two benchmark processes (reported by the
+    SigAdapter the configuration uses: before a start / after an end) the child sends itself
+    `sig`.  Returns {'events': […], 'exit': code or None, 'signal': number or None, 'status': …}."""
+    import builtins
+    import signal as _signal
+    r, w = os.pipe()
+    sys.stdout.flush()
+    sys.stderr.flush()
+    pid = os.fork()
+    if pid == 0:
+        code = 0
+        try:
+            os.close(r)
+            _signal.signal(_signal.SIGTERM, _signal.SIG_DFL)
+            _signal.signal(_signal.SIGINT, _signal.default_int_handler)
+            if hasattr(drive.swt, '_signals_setup'):
+                drive.swt._signals_setup = False        # as in a process that has not run anything yet
+            _StreamLog.fd = w
+            state = {'n': 0}
+            lock = threading.Lock()
+            holder = {}
+
+            def point(kind):
+                with lock:
+                    state['n'] += 1
+                    n = state['n']
+                holder['log'].add('point', n, kind)
+                if sig_at is not None and n == sig_at:
+                    holder['log'].add('signal', int(sig))
+                    os.kill(os.getpid(), sig)
+                    time.sleep(0.05)      # a handler, if any, runs in the main thread
+            builtins.rb_verif_point = point
+            holder['log'] = _StreamLog()
+            if cpu_count > 1:
+                res, _ev, left = run_parallel_session(workdir, argv, script, report, cpu_count=cpu_count,
+                                                      cset=cset, num_cores=num_cores, wait=5.0, log=holder['log'])
+            else:
+                res, _ev = run_denoise_session(workdir, argv, script, report, cset=cset, num_cores=num_cores,
+                                               log=holder['log'])
+                left = []
+            os.write(w, (json.dumps(['done', res.status(), res.crash, left]) + '\\n').encode())
+        except BaseException:  # pylint: disable=broad-except
+            import traceback
+            traceback.print_exc()
+            code = 5
+        finally:
+            os._exit(code)
+    os.close(w)
+    data = b''
+    deadline = time.time() + timeout
+    import select
+    while True:
+        rl, _, _ = select.select([r], [], [], max(0.0, deadline - time.time()))
+        if not rl:
+            os.kill(pid, 9)
+            break
+        chunk = os.read(r, 65536)
+        if not chunk:
+            break
+        data += chunk
+    os.close(r)
+    _, status = os.waitpid(pid, 0)
+    events, done = [], None
+    for line in data.decode('utf-8', 'replace').split('\\n'):
+        if line.strip():
+            try:
+                e = json.loads(line)
+            except ValueError:
+                continue
+            if e[0] == 'done':
+                done = e
+            else:
+                events.append(tuple(e))
+    return {'events': events, 'done': done,
+            'exit': os.WEXITSTATUS(status) if os.WIFEXITED(status) else None,
+            'signal': os.WTERMSIG(status) if os.WIFSIGNALED(status) else None}
